@@ -27,3 +27,66 @@ class Plugin(HistPlugin):
             return HistPlugin.gen_case(self, rng, i, tier)
         finally:
             gen.TINY[0] = False
+
+    def extra_checks(self, rng, tier, seed):
+        """Batches on the implementation: an UNORDERED insert_many applies exactly the documents
+        that succeed when inserted one at a time (in order, each against the state the earlier
+        ones left), an ORDERED one exactly those before the first failure; both report the
+        failures as a BulkWriteError.  Unique indexes over strings, numbers, datetimes and
+        ObjectIds, duplicate _ids and duplicate unique keys."""
+        import copy
+        import datetime
+        import common
+        import mongomock
+        n = 150 if tier == 'quick' else 3000
+        viol, probes = [], 0
+        t0 = datetime.datetime(2020, 1, 1)
+        pool = ['a', 'b', 1, 2, t0, t0 + datetime.timedelta(days=1), common.make_oid(1), common.make_oid(2), None]
+        for i in range(n):
+            uniq = rng.choice(['k', 'k', 'w'])
+            pre = [{'_id': 100, 'k': rng.choice(pool), 'w': 'pre'}]
+            docs = []
+            for j in range(rng.choice([2, 3, 4, 5])):
+                d = {'_id': rng.choice([1, 2, 3, 4, 100]), 'k': rng.choice(pool), 'w': rng.choice(['x', 'y', 'pre'])}
+                if rng.random() < 0.2:
+                    del d['_id']
+                docs.append(d)
+            ordered = rng.random() < 0.4
+
+            def fresh():
+                c = mongomock.MongoClient().db.c
+                c.insert_many(copy.deepcopy(pre))
+                c.create_index(uniq, unique=True)
+                return c
+            with __import__('unittest').mock.patch('mongomock.collection.ObjectId', common.CounterOidFactory(1000)):
+                ref = fresh()
+                failed = False
+                for d in copy.deepcopy(docs):
+                    if failed and ordered:
+                        break
+                    try:
+                        ref.insert_one(d)
+                    except Exception:  # noqa  (whatever the error class: the write must leave no trace)
+                        failed = True
+                expected = hist.canon(list(ref.find()))
+            with __import__('unittest').mock.patch('mongomock.collection.ObjectId', common.CounterOidFactory(1000)):
+                c = fresh()
+                try:
+                    c.insert_many(copy.deepcopy(docs), ordered=ordered)
+                    raised = None
+                except Exception as e:  # noqa
+                    raised = type(e).__name__
+                got = hist.canon(list(c.find()))
+            probes += 1
+            ok = got == expected and raised == ('BulkWriteError' if failed else None)
+            if not ok:
+                viol.append({'case': {'pre': common.to_jsonable(pre), 'unique_index': uniq, 'ordered': ordered,
+                                      'docs': common.to_jsonable(docs)},
+                             'impl': {'raised': raised, 'collection': common.to_jsonable(got),
+                                      'one_at_a_time': common.to_jsonable(expected)},
+                             'failing_clause': 'insert_many does not apply exactly the documents that succeed one '
+                                               'at a time (ordered: up to the first failure), or does not report '
+                                               'the failures as BulkWriteError'})
+                if len(viol) >= 3:
+                    break
+        return viol, {'batch_probes': probes}
